@@ -20,7 +20,7 @@ EXPLANATION = ('Programs of the documented core language are generated from a tr
                'because the reference has value semantics.')
 ASSUMPTIONS = ['integers: additive operands any integer, operands of * / % in -3..3 (the engine forks over them: non-linear otherwise)', 'strings <= 2 characters over small alphabets',
                'arrays/dicts of size <= 3; dictionary keys concrete', 'one real Interpreter per path, project() call included, backend None']
-OUT = 'subdir() and subproject() (they read further files), every function other than set_variable/get_variable/is_variable/unset_variable/range/assert, Disabler, feature-version warnings, non-ASCII'
+OUT = 'subdir()/subproject() beyond the 7 programs of the subdir-subproject obligation (options, nested subprojects, subdir_done), every function other than set_variable/get_variable/is_variable/unset_variable/range/assert/subdir/subproject, Disabler, feature-version warnings, non-ASCII'
 MANIFEST = dict(
     text='Bounded differential symbolic check: for every program of the stated grammar fragment (all operator pairs in parent/child and left/right position, every binary operator on every '
          'pair of operand types, arrays, dictionaries, strings and their documented methods, control flow with break/continue, the variable functions) and ALL literal values within the '
@@ -155,6 +155,7 @@ def tname(v):
     if isinstance(v, list): return 'list'
     if isinstance(v, dict): return 'dict'
     if isinstance(v, range): return 'range'
+    if v.__class__.__name__ in ('RefSubproject', 'Interpreter', 'SubprojectHolder'): return 'subproject'
     raise AssertionError(type(v))
 
 
@@ -271,6 +272,7 @@ def to_display(v):
 class Ref:
     def __init__(self, presets):
         self.vars = dict(presets)
+        self.visited = set()
 
     def ev(self, e):
         k = e[0]
@@ -343,6 +345,18 @@ class Ref:
         if name == 'is_variable':
             if len(args) != 1 or tname(args[0]) != 'str': raise RefError('is_variable(name)')
             return args[0] in self.vars
+        if name == 'subdir':
+            # Reference manual: "the build definition file in the subdirectory is run as if it was written in place"; entering a directory twice is an error
+            if len(args) != 1 or tname(args[0]) != 'str': raise RefError('subdir(name)')
+            if args[0] in self.visited: raise RefError('subdir entered twice')
+            self.visited.add(args[0])
+            self.run(SUBFILES[args[0]]); return None
+        if name == 'subproject':
+            # a subproject is a project of its own: nothing of the parent is visible inside, its variables are reached through get_variable() only
+            if len(args) != 1 or tname(args[0]) != 'str': raise RefError('subproject(name)')
+            inner = Ref({})
+            inner.run(SUBPROJECTS[args[0]])
+            return RefSubproject(inner.vars)
         if name == 'unset_variable':
             if len(args) != 1 or tname(args[0]) != 'str': raise RefError('unset_variable(name)')
             if args[0] not in self.vars: raise RefError('unknown variable')
@@ -357,6 +371,12 @@ class Ref:
 
     def method(self, o, name, args, kw):
         t = tname(o)
+        if t == 'subproject':
+            if name != 'get_variable' or not (1 <= len(args) <= 2) or tname(args[0]) != 'str': raise RefError('subproject.get_variable(name[, fallback])')
+            for kname in o.vars:
+                if len(kname) == len(args[0]) and decide(bt_any(args[0] == kname)): return clone(o.vars[kname])
+            if len(args) == 2: return clone(args[1])
+            raise RefError('unknown subproject variable')
         if t == 'str' and name != 'format' and isinstance(o, str) and any(is_sym(a) for a in args): o = SymStr(chars_of(o))      # same value, liftable methods
         A = lambda n, types=None: self._args(args, n, types)
         if t == 'int':
@@ -560,7 +580,7 @@ def unhold(h):
 def same_val(a, b, what):
     ta, tb = tname(a), tname(b)
     check(ta == tb, what + ': type')
-    if ta != tb: return
+    if ta != tb or ta == 'subproject': return
     if ta == 'list':
         check(len(a) == len(b), what + ': array length')
         if len(a) == len(b):
@@ -610,6 +630,65 @@ def differential(stmts, presets, text=None):
         cover('value')
     elif gerr is not None and rerr is not None:
         cover('error')
+
+
+# ---------------------------------------------------------------- subdir() and subproject()
+SUBFILES = {}        # directory name -> statements of its meson.build (what the reference inlines)
+SUBPROJECTS = {}     # subproject name -> statements of its meson.build (after project())
+
+
+class RefSubproject:
+    def __init__(self, vars_): self.vars = vars_
+
+
+def write_tree_file(rel, text):
+    import os
+    p = os.path.join(ENV.source_dir, rel)
+    os.makedirs(os.path.dirname(p), exist_ok=True)
+    with open(p, 'w') as f: f.write(text)
+
+
+def ob_subdir_subproject():
+    """subdir(): the file runs as if written in place, sharing all variables (both ways); subproject(): its variables are reachable only through
+    get_variable(), the parent's are not visible inside"""
+    def h():
+        import os
+        tag = 'p%d' % os.getpid()            # one directory per worker process: paths of different workers do not overwrite each other's files
+        P = {'I0': sym_int('I0'), 'I1': sym_int('I1', -3, 3), 'B0': sym_bool('B0'), 'S0': sym_str(1, 'S0', alphabet='vwz')}
+        i0, i1, b0, s0 = ('var', 'I0'), ('var', 'I1'), ('var', 'B0'), ('var', 'S0')
+        k = choose(7, 'prog')
+        sub = 'sub' + tag; sp = 'sp' + tag
+        subfile = None; spfile = None
+        if k == 0:      # variables flow in and out, and are modified in between
+            subfile = [('assign', 'b', ('bin', '+', ('var', 'a'), i1)), ('assign', 'a', ('bin', '*', ('var', 'a'), ('num', 2)))]
+            prog = [('assign', 'a', i0), ('expr', ('call', 'subdir', [('str', sub)], {})), ('assign', 'z', ('bin', '+', ('var', 'a'), ('var', 'b')))]
+        elif k == 1:    # arrays are values also across the file boundary; control flow inside the file
+            subfile = [('assign', 'm', ('var', 'l')), ('pluseq', 'l', ('arr', [i1])), ('if', [(b0, [('assign', 'c', ('num', 1))])], [('assign', 'c', ('num', 2))])]
+            prog = [('assign', 'l', ('arr', [i0])), ('expr', ('call', 'subdir', [('str', sub)], {})), ('assign', 'n', ('meth', ('var', 'm'), 'length', [], {}))]
+        elif k == 2:    # an error inside the file is an error of the whole
+            subfile = [('assign', 'b', ('bin', '+', ('var', 'undefined_name'), i1))]
+            prog = [('assign', 'a', i0), ('expr', ('call', 'subdir', [('str', sub)], {}))]
+        elif k == 3:    # the same directory twice is rejected
+            subfile = [('assign', 'b', i1)]
+            prog = [('expr', ('call', 'subdir', [('str', sub)], {})), ('expr', ('call', 'subdir', [('str', sub)], {}))]
+        elif k == 4:    # subproject variables: through get_variable only (symbolic name, fallback)
+            spfile = [('assign', 'v', ('bin', '*', ('num', 7), ('num', 2))), ('assign', 'w', ('arr', [('num', 1), ('num', 2)]))]
+            prog = [('assign', 'sp', ('call', 'subproject', [('str', sp)], {})), ('assign', 'q', ('meth', ('var', 'sp'), 'get_variable', [s0, i0], {})),
+                    ('assign', 'h', ('call', 'is_variable', [s0], {})), ('assign', 'v', i1)]
+        elif k == 5:    # ... without a fallback an unknown name is an error; a known one is a copy
+            spfile = [('assign', 'v', ('arr', [('num', 1)])), ('assign', 'w', ('str', 'x'))]
+            prog = [('assign', 'sp', ('call', 'subproject', [('str', sp)], {})), ('assign', 'q', ('meth', ('var', 'sp'), 'get_variable', [s0], {})), ('pluseq', 'q', i0)]
+        else:           # the parent's variables are not visible inside the subproject
+            spfile = [('assign', 'v', ('bin', '+', ('var', 'a'), ('num', 1)))]
+            prog = [('assign', 'a', i0), ('assign', 'sp', ('call', 'subproject', [('str', sp)], {}))]
+        if subfile is not None:
+            SUBFILES[sub] = subfile
+            write_tree_file(sub + '/meson.build', render_block(subfile))
+        if spfile is not None:
+            SUBPROJECTS[sp] = spfile
+            write_tree_file('subprojects/' + sp + '/meson.build', "project('" + sp + "')\n" + render_block(spfile))
+        differential(prog, P)
+    return h
 
 
 # ================================================================== program generators
@@ -993,5 +1072,6 @@ def obligations(tier):
     out.append(Obligation('variables', ob_variables(), dict(programs=6), labels=('value', 'error'), max_paths=5000000))
     for n in (1, 2) if tier == 'quick' else (1, 2, 3):
         out.append(Obligation('literals[%d]' % n, ob_literals(n), dict(body_len=n, alphabet="a \\ n ' 0 7"), labels=('value',), max_paths=5000000))
+    out.append(Obligation('subdir-subproject', ob_subdir_subproject(), dict(programs=7, files='written to the scratch source tree per path (one directory per worker)', values='symbolic'), labels=('value', 'error')))
     out.append(Obligation('rejections', ob_rejections(), dict(forms=8), labels=('rejected',)))
     return out
